@@ -260,7 +260,7 @@ class Budget(BaseException):
 class Impl:
     """the real parser under a deterministic event budget"""
 
-    def __init__(self):
+    def __init__(self, instrument=True):
         import numpy as np
         from klongpy import KlongInterpreter
         import klongpy.core as core
@@ -270,6 +270,10 @@ class Impl:
         self.k = KlongInterpreter()
         from klongpy.parser import KGExprArray
         self.KGExprArray = KGExprArray
+        self.instrumented = 0
+        self.active = False
+        if not instrument:
+            return
         self.mon = sys.monitoring
         self.tool = self.mon.PROFILER_ID
         try:
@@ -312,7 +316,8 @@ class Impl:
 
     def close(self):
         try:
-            self.mon.free_tool_id(self.tool)
+            if self.instrumented:
+                self.mon.free_tool_id(self.tool)
         except Exception:
             pass
 
@@ -662,6 +667,8 @@ class Oracle:
         self.probes = []          # (text, first canonical result) re-parsed at the end of the run
         self.error_texts = []
         self.ncheck = 0
+        self.kv = impl.K()             # interpreter whose variables are rebound between parses of the same text
+        self.fnval = self.kv.prog("{x}")[1][0]
         self.init_sentinels()
 
     def init_sentinels(self):
@@ -735,6 +742,33 @@ class Oracle:
                            "history": SENTINEL_DEFS + [broken["earlier_text"]]})
             self.init_sentinels()          # so that the next texts are not blamed for this one
             return broken, c1, n1
+        # the same text parsed again after every name in it was rebound (unbound -> data -> function): prog must not read variables
+        if r1[0] in ("ok", "err") and len(text) < 2000 and (kind in REBIND_KINDS or self.ncheck % 4 == 0):
+            names = list(dict.fromkeys(NAME_RE.findall(text)))[:6]
+            if names:
+                kv = self.kv
+                for mode, val in (("data", 7), ("function", self.fnval)):
+                    for nm in names:
+                        try:
+                            kv[nm] = val
+                        except Exception:  # noqa
+                            pass
+                    r3, _ = impl.parse(text, kv)
+                    c3 = ("ok", impl.dump_prog(r3[1])) if r3[0] == "ok" else r3
+                    if c3 != c1:
+                        for nm in names:
+                            try:
+                                del kv[nm]
+                            except Exception:  # noqa
+                                pass
+                        return {"kind": "reparse-after-rebinding-differs", "text": text, "case": kind,
+                                "history": ["%s::%s" % (nm, "7" if mode == "data" else "{x}") for nm in names],
+                                "names_bound_to": mode, "unbound": repr(c1)[:300], "rebound": repr(c3)[:300]}, c1, n1
+                for nm in names:
+                    try:
+                        del kv[nm]
+                    except Exception:  # noqa
+                        pass
         if ev and r1[0] == "ok" and can_eval(text):
             p1 = r1[1][1]
             p2 = r2[1][1]
@@ -747,202 +781,190 @@ class Oracle:
             if d1 != d2:
                 return {"kind": "re-evaluation-differs", "text": text, "first": repr(d1)[:300], "second": repr(d2)[:300],
                         "case": kind}, c1, n1
+            # evaluation must not change the parsed program (it is kept in the parse cache and in stored functions) ...
+            c1b = ("ok", impl.dump_prog(r1[1]))
+            if c1b != c1:
+                return {"kind": "evaluation-changed-the-parsed-program", "text": text, "case": kind,
+                        "before": repr(c1)[:300], "after": repr(c1b)[:300]}, c1, n1
+            # ... so evaluating the same program again gives the same value (texts without assignment)
+            if "::" not in text:
+                e1b, _ = impl.budgeted(lambda: [self.k1.call(y) for y in p1], EVAL_BUDGET)
+                d1b = ("ok", impl.dump_value(e1b[1])) if e1b[0] == "ok" else e1b
+                if d1b != d1:
+                    return {"kind": "second-evaluation-of-the-same-program-differs", "text": text, "case": kind,
+                            "first": repr(d1)[:300], "second": repr(d1b)[:300]}, c1, n1
         return None, c1, n1
 
 
-def check_all(chk, rng, impl, cases_iter):
-    """returns (property failures, correspondence failures)"""
-    cases = []
-    seen = set()
-    for kind, text, ev in cases_iter:
-        if text in seen:
-            chk.count("duplicates_skipped")
-            continue
-        seen.add(text)
-        cases.append((kind, text, ev))
-    model = chk.run_model([model_req(t) for _, t, _ in cases])
-    prop_bad, corr_bad = [], []
-    orc = Oracle(impl)
-    shapes = set()
-    modcases = []
-    for (kind, text, ev), mr in zip(cases, model):
-        chk.count("evaluations")
-        chk.count("cases_" + kind)
-        bad, c1, n1 = orc.check(kind, text, ev, chk)
-        if bad is not None:
-            prop_bad.append(bad)
-            if len(prop_bad) >= 5:
-                chk.count("stopped_early_after_5_failures")
-                break
-            continue
-        # ---- correspondence with the model
-        m = impl.mres(mr)
-        ok = True
-        if c1[0] == "rec":
-            chk.count("recursion_errors")
-            ok = len(text) >= 100
-        elif c1[0] == "ok":
-            ok = (m[0] == "ok" and m[1] == c1[1])
-            if not ok and ".module" in text and m[0] == "ok":       # the text itself switched the module: not modelled
-                ok = impl.strip_mod(m[1]) == impl.strip_mod(c1[1])
-                chk.count("compared_without_module_suffix")
-        elif c1[0] == "err":
-            ok = (m[0] == "err" and m[1] == c1[1])
-        if not ok:
-            corr_bad.append({"kind": "model-differs", "text": text, "impl": repr(c1)[:400], "model": repr(m)[:400], "case": kind})
-        # ---- the same text parsed in a module (every line / witness / short string, a fifth of the rest)
-        if kind in ("line", "witness", "exh1", "exh2") or chk.counters["evaluations"] % 8 == 0:
-            modcases.append((kind, text))
-        shapes.add((c1[0], c1[1] if c1[0] == "err" else None, kind))
-        if c1[0] == "ok" and c1[1][1]:
-            chk.count("parsed_nonempty")
-        elif c1[0] == "err":
-            chk.count("rejected_" + c1[1])
-        if chk.counters["evaluations"] % 3001 == 7:
-            chk.sample({"case": kind, "text": text[:80], "impl": c1[0] if c1[0] != "err" else c1[1], "events": n1,
-                        "budget": BUDGET(len(text))}, limit=8)
-    # ---- parsing inside a module: symbols are qualified; compared with the model's read_sym under that module
-    if len(prop_bad) < 5:
-        mouts = chk.run_model([model_req_m(t, MODULES[i % 2]) for i, (_, t) in enumerate(modcases)])
-        for i, ((kind, text), mr) in enumerate(zip(modcases, mouts)):
-            md = MODULES[i % 2]
-            chk.count("evaluations")
-            chk.count("cases_in_module")
+# ---------------------------------------------------------------- worker process (implementation side of every sweep)
+# Every parse of the sweeps runs in a child process: the parent watches the CPU time the child spends on the job it announced
+# and kills it when the job's budget (linear in the length of its texts, far above the honest cost) is exceeded - the only way to
+# stop a loop inside C code (a regex, a bignum).  A killed job is a property failure of its text (work not bounded by the
+# polynomial), the sweep continues behind it in a new worker.
+def job_cpu_budget(job):
+    """seconds of child CPU time for one job (HEAD: microseconds to milliseconds per short text, ~1-3 s for a 20 kB file)"""
+    k = job[0]
+    if k == "late":
+        return 240.0
+    if k == "hist":
+        n = sum(len(st[0]) for st in job[2])
+        return 30.0 + 0.01 * n
+    if k == "cache":
+        return 30.0 + 0.02 * len(job[1])
+    n = len(job[2]) if k in ("case", "mod") else len(job[1])
+    return 15.0 + 0.005 * n
+
+
+def job_text(job):
+    k = job[0]
+    if k in ("case", "mod"):
+        return job[2]
+    if k in ("lex", "cache"):
+        return job[1]
+    if k == "hist":
+        return job[2][-1][0]
+    return ""
+
+
+class Worker:
+    """state of the child: the long-lived interpreter and its oracle"""
+
+    def __init__(self):
+        self.impl = Impl()
+        self.orc = Oracle(self.impl)
+        self.kc = self.kt = None
+        self.fresh = {}
+
+    def do(self, job):
+        k = job[0]
+        impl, orc = self.impl, self.orc
+        if k == "case":
+            _, kind, text, ev = job
+            before = orc_evals = 0
+            bad, c1, n1 = orc.check(kind, text, ev, self)
+            return {"bad": bad, "c": c1, "n": n1, "evd": self.evd}
+        if k == "mod":
+            _, kind, text, md = job
             r1, n1 = impl.parse(text, module=md)
-            changed = impl.module_changed
             c1 = ("ok", impl.dump_prog(r1[1])) if r1[0] == "ok" else r1
             r2, n2 = impl.parse(text, module=md)
             c2 = ("ok", impl.dump_prog(r2[1])) if r2[0] == "ok" else r2
+            bad = None
             if r1[0] == "hang" or c1 != c2:
-                prop_bad.append({"kind": "hang" if r1[0] == "hang" else "reparse-differs", "text": text, "module": md,
-                                 "first": repr(c1)[:300], "second": repr(c2)[:300], "case": kind})
-                if len(prop_bad) >= 5:
-                    break
-                continue
-            m = impl.mres(mr)
-            if c1[0] == "rec":
-                ok = len(text) >= 100
-            elif c1[0] == "ok":
-                ok = (m[0] == "ok" and m[1] == c1[1]) or (".module" in text and m[0] == "ok" and impl.strip_mod(m[1]) == impl.strip_mod(c1[1]))
-            else:
-                ok = (m[0] == "err" and m[1] == c1[1])
-            if not ok:
-                corr_bad.append({"kind": "model-differs", "text": text, "module": md, "impl": repr(c1)[:400], "model": repr(m)[:400],
-                                 "case": kind})
-    # history independence: texts parsed early in the run are parsed again by the same interpreter after
-    # everything else (all the malformed texts included) went through it
-    for idx, probe in enumerate(orc.probes):
-        text, c_first = probe
-        r, n = impl.parse(text)
-        c_now = ("ok", impl.dump_prog(r[1])) if r[0] == "ok" else r
-        rf, _ = impl.parse(text, impl.K())                      # the same text in a fresh interpreter
-        c_fresh = ("ok", impl.dump_prog(rf[1])) if rf[0] == "ok" else rf
-        chk.count("late_reparses")
-        if c_now != c_first or c_now != c_fresh:
-            c_first = c_fresh
-            bad = {"kind": "reparse-after-other-texts-differs", "text": text, "fresh_interpreter": repr(c_first)[:300],
-                   "later": repr(c_now)[:300], "history": "all texts of this run (tier %s, seed %d) parsed in between" % (chk.tier, chk.seed)}
-            # look for a one-text history that already changes the result
-            for cand in orc.error_texts[:4000]:
-                kk = impl.K()
-                impl.parse(cand, kk)
-                r3, _ = impl.parse_keep_module(text, kk)
-                c3 = ("ok", impl.dump_prog(r3[1])) if r3[0] == "ok" else r3
-                if c3 != c_first:
-                    bad["history"] = [cand]
-                    break
-            prop_bad.append(bad)
-            break
-    chk.counters["distinct_nontrivial"] = len([1 for (kind, text, ev) in cases if text.strip()])
-    chk.counters["outcome_classes"] = len(shapes)
-    chk.counters["max_budget_fraction_permille"] = int(orc.max_ratio * 1000)
-    chk.pool_err = list(orc.error_texts)
-    chk.pool_ok = [t for k_, t, _ in cases if k_ in ("line", "exh2", "rnd3") and len(t) < 300][:6000]
-    return prop_bad, corr_bad, seen
+                bad = {"kind": "hang" if r1[0] == "hang" else "reparse-differs", "text": text, "module": md,
+                       "first": repr(c1)[:300], "second": repr(c2)[:300], "case": kind}
+            return {"bad": bad, "c": c1}
+        if k == "lex":
+            from klongpy.parser import kg_read
+            _, t, rn, ign = job
+            r, n = impl.budgeted(lambda: kg_read(t, 0, read_neg=bool(rn), ignore_newline=bool(ign), module=None), BUDGET(len(t)))
+            if r[0] == "hang":
+                return {"hang": True}
+            return {"hang": False, "c": ("ok", [int(r[1][0]), impl.dump(r[1][1], True)]) if r[0] == "ok" else r}
+        if k == "late":
+            return self.late()
+        if k == "hist":
+            return self.history(job[1], job[2])
+        if k == "cache":
+            return {"bad": self.cache(job[1])}
+        raise ValueError("unknown job %r" % (k,))
 
+    evd = 0
 
-def check_histories(chk, rng, impl):
-    """the repeatability half on ONE interpreter: histories of 3-6 texts mixing malformed and well-formed ones (and module
-    switches); every parse is done twice and compared with a fresh interpreter's parse of the same text in the same module."""
-    n_hist = 400 if chk.tier == "quick" else 4000
-    pool_err = chk.pool_err or ["{"]
-    pool_ok = chk.pool_ok or ["1"]
-    nasty = ["{", "(", ":[", "[;", "f(", ":{", "{[a];", "{{", "((", ':"', '"', "0c", ".module(:zz)", ".module(0)", '.comment("q")',
-             ".module(:zz);a", "{.module(:zz)", "a::{", "f(1;", ":[1;2:|", "{x}'", "+/", "1e", "1e+", ":{1}", "{f([1])}"] + WITNESS_TEXTS
-    fresh = {}
+    def count(self, key, n=1):          # Oracle.check calls chk.count("evaluated_twice")
+        self.evd += n
 
-    def fresh_parse(text, md):
+    def late(self):
+        """history independence: texts parsed early in the run are parsed again by the same interpreter after everything
+        else (all the malformed texts included) went through it, and by a fresh interpreter"""
+        impl, orc = self.impl, self.orc
+        n = 0
+        for text, c_first in orc.probes:
+            r, _ = impl.parse(text)
+            c_now = ("ok", impl.dump_prog(r[1])) if r[0] == "ok" else r
+            rf, _ = impl.parse(text, impl.K())
+            c_fresh = ("ok", impl.dump_prog(rf[1])) if rf[0] == "ok" else rf
+            n += 1
+            if c_now != c_first or c_now != c_fresh:
+                bad = {"kind": "reparse-after-other-texts-differs", "text": text, "fresh_interpreter": repr(c_fresh)[:300],
+                       "later": repr(c_now)[:300], "history": "all texts of this run parsed in between"}
+                for cand in orc.error_texts[:4000]:
+                    kk = impl.K()
+                    impl.parse(cand, kk)
+                    r3, _ = impl.parse_keep_module(text, kk)
+                    c3 = ("ok", impl.dump_prog(r3[1])) if r3[0] == "ok" else r3
+                    if c3 != c_fresh:
+                        bad["history"] = [cand]
+                        break
+                return {"bad": bad, "count": n}
+        return {"bad": None, "count": n, "max_ratio": orc.max_ratio}
+
+    def fresh_parse(self, text, md):
+        impl = self.impl
         key = (text, md)
-        if key not in fresh:
+        if key not in self.fresh:
             r, _ = impl.parse(text, impl.K(), module=md)
-            fresh[key] = ("ok", impl.dump_prog(r[1])) if r[0] == "ok" else r
-        return fresh[key]
-    nasty = nasty + COLON_ADVERB_TEXTS
-    pure = [t for t in pool_ok if can_eval(t) and "::" not in t][:2000] + SENTINEL_CALLS
-    for h in range(n_hist):
+            self.fresh[key] = ("ok", impl.dump_prog(r[1])) if r[0] == "ok" else r
+        return self.fresh[key]
+
+    def history(self, ndefs, steps):
+        """one history on ONE interpreter: every parse twice, compared with a fresh interpreter's; earlier programs keep
+        their structure (operator arities included) and pure ones their value"""
+        impl = self.impl
         k = impl.K()
-        hist = []
-        kept = []          # earlier programs of this history: [text, module, program, dump, first evaluation]
-        for t in SENTINEL_DEFS[:rng.randint(0, len(SENTINEL_DEFS))]:
+        hist, kept = [], []
+        parses = reevals = 0
+        for t in SENTINEL_DEFS[:ndefs]:
             r, _ = impl.parse(t, k)
             if r[0] == "ok":
                 pr = r[1][1]
                 impl.budgeted(lambda: [k.call(y) for y in pr], EVAL_BUDGET)
                 hist.append([t, None])
-        for j in range(rng.randint(3, 6)):
-            u = rng.random()
-            text = rng.choice(nasty) if u < 0.35 else (rng.choice(pool_err) if u < 0.55 else (rng.choice(pure) if u < 0.8 else rng.choice(pool_ok)))
-            md = rng.choice([None, None, "m", "geo2"])
+        for text, md, pure in steps:
             hist.append([text, md])
-            chk.count("evaluations")
-            chk.count("cases_history_parse")
+            parses += 1
             for rep in (1, 2):
                 r, n = impl.parse(text, k, module=md)
                 c = ("ok", impl.dump_prog(r[1])) if r[0] == "ok" else r
                 if r[0] == "hang":
-                    return {"kind": "hang", "text": text, "module": md, "history": hist[:-1]}
-                want = fresh_parse(text, md)
+                    return {"bad": {"kind": "hang", "text": text, "module": md, "history": hist[:-1]}}
+                want = self.fresh_parse(text, md)
                 if c != want:
-                    return {"kind": "reparse-after-other-texts-differs", "text": text, "module": md, "history": hist[:-1],
-                            "parse_number": rep, "fresh_interpreter": repr(want)[:300], "later": repr(c)[:300]}
-            # earlier programs of this history: same structure (operator arities included) and same value as at first
+                    return {"bad": {"kind": "reparse-after-other-texts-differs", "text": text, "module": md, "history": hist[:-1],
+                                    "parse_number": rep, "fresh_interpreter": repr(want)[:300], "later": repr(c)[:300]}}
             for kt_, kmd, kprog, kdump, kev in kept:
                 d = repr([impl.dump(y) for y in kprog])
                 if d != kdump:
-                    return {"kind": "earlier-program-changed-by-later-parse", "text": text, "module": md, "history": hist[:-1],
-                            "earlier_text": kt_, "earlier_program_before": kdump[:300], "earlier_program_after": d[:300]}
+                    return {"bad": {"kind": "earlier-program-changed-by-later-parse", "text": text, "module": md, "history": hist[:-1],
+                                    "earlier_text": kt_, "earlier_program_before": kdump[:300], "earlier_program_after": d[:300]}}
                 if kev is not None:
                     e, _ = impl.budgeted(lambda: [k.call(y) for y in kprog], EVAL_BUDGET)
                     ev = ("ok", impl.dump_value(e[1])) if e[0] == "ok" else e
-                    chk.count("history_reevaluations")
+                    reevals += 1
                     if ev != kev:
-                        return {"kind": "earlier-program-evaluates-differently-after-later-parse", "text": text, "module": md,
-                                "history": hist[:-1], "earlier_text": kt_, "first_evaluation": repr(kev)[:200], "later_evaluation": repr(ev)[:200]}
+                        return {"bad": {"kind": "earlier-program-evaluates-differently-after-later-parse", "text": text, "module": md,
+                                        "history": hist[:-1], "earlier_text": kt_, "first_evaluation": repr(kev)[:200],
+                                        "later_evaluation": repr(ev)[:200]}}
             if r[0] == "ok" and len(text) < 300:
                 kprog = r[1][1]
                 kev = None
-                if text in pure and md is None:
+                if pure and md is None:
                     e, _ = impl.budgeted(lambda: [k.call(y) for y in kprog], EVAL_BUDGET)
                     kev = ("ok", impl.dump_value(e[1])) if e[0] == "ok" else e
                 kept.append([text, md, kprog, repr([impl.dump(y) for y in kprog]), kev])
-        chk.count("histories")
-    return None
+        return {"bad": None, "parses": parses, "reevals": reevals}
 
-
-def check_call_cache(chk, rng, impl):
-    """KlongInterpreter.__call__ keeps parsed programs in a cache keyed by (text, module).  The cached program must be the
-    program a fresh parse gives in that module, and evaluating through the cache must equal evaluating a fresh parse."""
-    texts = [t for t in chk.pool_ok if can_eval(t)]
-    rng.shuffle(texts)
-    texts = texts[:300 if chk.tier == "quick" else 3000] + ["a::7;a", "b::{x+1};b(2)", "a", ".module(:zz);a", "q::3", ":a", "[:a :b]", ":a,:b", "{:q}()", "0c:,:s"]
-    kc, kt = impl.K(), impl.K()          # kc: through __call__ (cache); kt: fresh parse + call, the twin
-    for kk in (kc, kt):
-        kk("t::{y~z}")
-    for text in texts:
-        for md in (None, "m", None, "geo2"):
+    def cache(self, text):
+        """KlongInterpreter.__call__ keeps parsed programs in a cache keyed by (text, module).  The cached program must be the
+        program a fresh parse gives in that module, and evaluating through the cache must equal evaluating a fresh parse."""
+        impl = self.impl
+        if self.kc is None:
+            self.kc, self.kt = impl.K(), impl.K()      # kc: through __call__ (cache); kt: fresh parse + call, the twin
+            for kk in (self.kc, self.kt):
+                kk("t::{y~z}")
+        kc, kt = self.kc, self.kt
+        for md in (None, "m", None, "geo2", None):
             sym = impl.core.KGSym(md) if md else None
-            chk.count("evaluations")
-            chk.count("cases_call_cache")
             kc._module = sym
             e1, _ = impl.budgeted(lambda: kc(text), EVAL_BUDGET + BUDGET(len(text)))
             kc._module = None
@@ -975,6 +997,333 @@ def check_call_cache(chk, rng, impl):
                 if a != b:
                     return {"kind": "cached-program-differs-from-fresh-parse", "text": text, "module": md,
                             "cached": repr(a)[:300], "fresh_parse": repr(b)[:300]}
+        return None
+
+
+def worker_main(jobsfile, start):
+    jobs = json.load(open(jobsfile))
+    w = Worker()
+    out = sys.stdout
+    for idx in range(start, len(jobs)):
+        out.write("S %d\n" % idx)
+        out.flush()
+        w.evd = 0
+        res = w.do(jobs[idx])
+        out.write("R %d %s\n" % (idx, json.dumps(res)))
+        out.flush()
+    return 0
+
+
+def _proc_cpu(pid):
+    """user+system CPU seconds of a process (all its threads)"""
+    try:
+        with open("/proc/%d/stat" % pid) as f:
+            rest = f.read().rsplit(")", 1)[1].split()
+        return (int(rest[11]) + int(rest[12])) / os.sysconf("SC_CLK_TCK")
+    except Exception:  # noqa
+        return None
+
+
+class Supervisor:
+    def __init__(self, chk, wall_budget):
+        self.chk = chk
+        self.deadline = chk.t0 + wall_budget        # after it the remaining texts are skipped and counted (never a verdict)
+        self.workdir = os.path.join(VERIF, ".work", "C12-%d" % os.getpid())
+        os.makedirs(self.workdir, exist_ok=True)
+        self.nfile = 0
+        self.stop_after_failures = 5
+        self.failures = 0
+
+    def close(self):
+        import shutil
+        shutil.rmtree(self.workdir, ignore_errors=True)
+
+    def run(self, jobs, is_failure=None):
+        """run the jobs in worker processes; -> list of results (None = skipped, {'killed': ..} = killed by the supervisor).
+        is_failure(result) lets the supervisor stop the sweep after 5 property failures."""
+        import resource
+        import select
+        import subprocess
+        import time
+        from .common import PY
+        chk = self.chk
+        self.nfile += 1
+        jf = os.path.join(self.workdir, "jobs%d.json" % self.nfile)
+        with open(jf, "w") as f:
+            json.dump(jobs, f)
+        results = [None] * len(jobs)
+        env = dict(os.environ, PYTHONPATH=REPO + ":" + VERIF, PYTHONHASHSEED="0")
+
+        def limits():
+            resource.setrlimit(resource.RLIMIT_CPU, (3600, 3600))
+            resource.setrlimit(resource.RLIMIT_AS, (8 << 30, 8 << 30))
+        start = 0
+        while start < len(jobs) and self.failures < self.stop_after_failures:
+            if time.time() > self.deadline:
+                break
+            p = subprocess.Popen([PY, "-W", "ignore", "-m", "harness.c12", "worker", jf, str(start)], stdout=subprocess.PIPE,
+                                 stderr=subprocess.PIPE, env=env, preexec_fn=limits, cwd=VERIF)
+            fd = p.stdout.fileno()
+            os.set_blocking(fd, False)
+            buf = b""
+            current, cpu0 = None, 0.0
+            done_upto = start
+            killed = False
+            eof = False
+            while not eof:
+                rd, _, _ = select.select([fd], [], [], 0.25)
+                if rd:
+                    try:
+                        chunk = os.read(fd, 1 << 20)
+                    except BlockingIOError:
+                        chunk = None
+                    if chunk == b"":
+                        eof = True
+                    elif chunk:
+                        buf += chunk
+                        while b"\n" in buf:
+                            line, buf = buf.split(b"\n", 1)
+                            if line.startswith(b"S "):
+                                current = int(line[2:])
+                                cpu0 = _proc_cpu(p.pid) or 0.0
+                            elif line.startswith(b"R "):
+                                _, idx, payload = line.split(b" ", 2)
+                                results[int(idx)] = json.loads(payload)
+                                done_upto = int(idx) + 1
+                                current = None
+                                if is_failure is not None and is_failure(results[int(idx)]):
+                                    self.failures += 1
+                if current is not None:
+                    cpu = _proc_cpu(p.pid)
+                    if cpu is not None and cpu - cpu0 > job_cpu_budget(jobs[current]):
+                        p.kill()
+                        p.wait()
+                        results[current] = {"killed": True, "cpu_s": round(cpu - cpu0, 1), "cpu_budget_s": round(job_cpu_budget(jobs[current]), 1)}
+                        chk.count("texts_killed_by_the_watchdog")
+                        self.failures += 1
+                        start = current + 1
+                        killed = True
+                        break
+                if self.failures >= self.stop_after_failures or time.time() > self.deadline:
+                    p.kill()
+                    p.wait()
+                    start = max(done_upto, start)
+                    killed = True
+                    break
+            if killed:
+                continue
+            rc = p.wait()
+            err = p.stderr.read().decode("utf-8", "replace")
+            if done_upto >= len(jobs):
+                start = len(jobs)
+            elif current is not None:
+                # the worker died on a job without being killed by us (crash, MemoryError, CPU rlimit)
+                results[current] = {"killed": True, "crashed": True, "rc": rc, "stderr": err[-400:]}
+                chk.count("texts_that_crashed_the_worker")
+                self.failures += 1
+                start = current + 1
+            else:
+                raise RuntimeError("C12 worker failed outside a job (rc=%s): %s" % (rc, err[-1500:]))
+        skipped = sum(1 for r in results if r is None)
+        if skipped:
+            chk.count("jobs_skipped_after_time_budget_or_5_failures", skipped)
+        return results
+
+
+def killed_failure(job, res):
+    t = job_text(job)
+    d = {"kind": "hang", "text": t, "length": len(t), "job": job[0],
+         "what": ("the worker process crashed while parsing this text: %s" % res.get("stderr", "")) if res.get("crashed") else
+                 "parsing did not finish within %.0f s of CPU time (budget %.0f s; HEAD needs milliseconds): work not bounded by the polynomial"
+                 % (res.get("cpu_s", 0), res.get("cpu_budget_s", 0))}
+    if job[0] == "hist":
+        d["history"] = [[t_, m_] for t_, m_, _ in job[2][:-1]]
+    if job[0] == "mod":
+        d["module"] = job[3]
+    return d
+
+
+def jsn(x):
+    return json.loads(json.dumps(x))
+
+
+def sweep(chk, rng, sup, cases_iter):
+    """main sweep + module pass + late re-parse + lexer; returns (property failures, correspondence failures, seen, pools)"""
+    cases, seen = [], set()
+    for kind, text, ev in cases_iter:
+        if text in seen:
+            chk.count("duplicates_skipped")
+            continue
+        seen.add(text)
+        cases.append((kind, text, ev))
+    modcases = [(kind, text) for i, (kind, text, ev) in enumerate(cases)
+                if kind in ("line", "witness", "exh1", "exh2") or i % 8 == 0]
+    lextexts = list(dict.fromkeys("".join(tup) for n in (1, 2) for tup in itertools.product(ALPHABET, repeat=n)))
+    lexmeta = [(t, rn, ign) for t in lextexts for rn in (0, 1) for ign in (0, 1)]
+    reqs = [model_req(t) for _, t, _ in cases] + [model_req_m(t, MODULES[i % 2]) for i, (_, t) in enumerate(modcases)] + \
+           ["(lex %d %d 0 (%s))" % (rn, ign, " ".join(str(ord(c)) for c in t)) for t, rn, ign in lexmeta]
+    mouts = chk.run_model(reqs)
+    model = mouts[:len(cases)]
+    mmod = mouts[len(cases):len(cases) + len(modcases)]
+    mlex = mouts[len(cases) + len(modcases):]
+    jobs = [["case", kind, text, ev] for kind, text, ev in cases] + \
+           [["mod", kind, text, MODULES[i % 2]] for i, (kind, text) in enumerate(modcases)] + [["late"]] + \
+           [["lex", t, rn, ign] for t, rn, ign in lexmeta]
+    results = sup.run(jobs, is_failure=lambda r: bool(r.get("bad")) or bool(r.get("hang")))
+    aux = Impl(instrument=False)          # canonical forms of the model's answers
+    prop_bad, corr_bad = [], []
+    shapes = set()
+    pool_err = []
+    max_ratio = 0.0
+    for job, res, mr in zip(jobs, results, model + mmod + [None] + mlex):
+        if res is None:
+            continue
+        k = job[0]
+        if res.get("killed"):
+            prop_bad.append(killed_failure(job, res))
+            continue
+        chk.count("evaluations")
+        if k in ("case", "mod"):
+            kind, text = job[1], job[2]
+            chk.count("cases_" + kind if k == "case" else "cases_in_module")
+            chk.count("evaluated_twice", res.get("evd", 0))
+            if res["bad"] is not None:
+                prop_bad.append(res["bad"])
+                continue
+            c1 = res["c"]
+            m = jsn(aux.mres(mr))
+            if c1[0] == "rec":
+                chk.count("recursion_errors")
+                ok = len(text) >= 100
+            elif c1[0] == "ok":
+                ok = (m[0] == "ok" and m[1] == c1[1])
+                if not ok and ".module" in text and m[0] == "ok":       # the text itself switched the module: not modelled
+                    ok = aux.strip_mod(m[1]) == aux.strip_mod(c1[1])
+                    chk.count("compared_without_module_suffix")
+            else:
+                ok = (m[0] == "err" and m[1] == c1[1])
+            if not ok:
+                corr_bad.append({"kind": "model-differs", "text": text, "module": job[3] if k == "mod" else None,
+                                 "impl": repr(c1)[:400], "model": repr(m)[:400], "case": kind})
+            if k == "case":
+                shapes.add((c1[0], c1[1] if c1[0] == "err" else None, kind))
+                if c1[0] == "ok" and c1[1][1]:
+                    chk.count("parsed_nonempty")
+                elif c1[0] == "err":
+                    chk.count("rejected_" + c1[1])
+                    if len(pool_err) < 4000:
+                        pool_err.append(text)
+                if chk.counters["evaluations"] % 3001 == 7:
+                    chk.sample({"case": kind, "text": text[:80], "impl": c1[0] if c1[0] != "err" else c1[1], "events": res["n"],
+                                "budget": BUDGET(len(text))}, limit=8)
+                max_ratio = max(max_ratio, res["n"] / BUDGET(len(text)))
+        elif k == "late":
+            chk.count("late_reparses", res.get("count", 0))
+            if res["bad"] is not None:
+                prop_bad.append(res["bad"])
+        elif k == "lex":
+            chk.count("cases_lexer")
+            t, rn, ign = job[1], job[2], job[3]
+            if res["hang"]:
+                prop_bad.append({"kind": "hang", "text": t, "where": "kg_read", "read_neg": rn, "ignore_newline": ign})
+                continue
+            mm = ("ok", [mr[1], aux.mcanon(mr[2], True)]) if mr[0] == "ok" else (("err", mr[1]) if mr[0] == "err" else ("oof",))
+            if res["c"] != jsn(mm):
+                corr_bad.append({"kind": "lexer-model-differs", "text": t, "read_neg": rn, "ignore_newline": ign,
+                                 "impl": repr(res["c"])[:300], "model": repr(mm)[:300]})
+    chk.counters["distinct_nontrivial"] = len([1 for (kind, text, ev) in cases if text.strip()])
+    chk.counters["outcome_classes"] = len(shapes)
+    chk.counters["max_budget_fraction_permille"] = int(max_ratio * 1000)
+    pool_ok = [t for k_, t, _ in cases if k_ in ("line", "exh2", "rnd3") and len(t) < 300][:6000]
+    return prop_bad, corr_bad, seen, pool_err, pool_ok
+
+
+def second_sweep(chk, rng, sup, pool_err, pool_ok):
+    """histories on one interpreter and the parse cache of __call__"""
+    n_hist = 400 if chk.tier == "quick" else 4000
+    pool_err = pool_err or ["{"]
+    pool_ok = pool_ok or ["1"]
+    nasty = ["{", "(", ":[", "[;", "f(", ":{", "{[a];", "{{", "((", ':"', '"', "0c", ".module(:zz)", ".module(0)", '.comment("q")',
+             ".module(:zz);a", "{.module(:zz)", "a::{", "f(1;", ":[1;2:|", "{x}'", "+/", "1e", "1e+", ":{1}", "{f([1])}"] + WITNESS_TEXTS + \
+        COLON_ADVERB_TEXTS
+    pure = [t for t in pool_ok if can_eval(t) and "::" not in t][:2000] + SENTINEL_CALLS
+    pureset = set(pure)
+    jobs = []
+    for h in range(n_hist):
+        ndefs = rng.randint(0, len(SENTINEL_DEFS))
+        steps = []
+        for j in range(rng.randint(3, 6)):
+            u = rng.random()
+            text = rng.choice(nasty) if u < 0.35 else (rng.choice(pool_err) if u < 0.55 else (rng.choice(pure) if u < 0.8 else rng.choice(pool_ok)))
+            steps.append([text, rng.choice([None, None, "m", "geo2"]), text in pureset])
+        jobs.append(["hist", ndefs, steps])
+    texts = [t for t in pool_ok if can_eval(t)]
+    rng.shuffle(texts)
+    texts = texts[:300 if chk.tier == "quick" else 3000] + CACHE_TEXTS
+    jobs += [["cache", t] for t in texts]
+    results = sup.run(jobs, is_failure=lambda r: bool(r.get("bad")))
+    bad = []
+    for job, res in zip(jobs, results):
+        if res is None:
+            continue
+        if res.get("killed"):
+            bad.append(killed_failure(job, res))
+            continue
+        if job[0] == "hist":
+            chk.count("histories")
+            chk.count("evaluations", res.get("parses", len(job[2])))
+            chk.count("cases_history_parse", res.get("parses", len(job[2])))
+            chk.count("history_reevaluations", res.get("reevals", 0))
+        else:
+            chk.count("evaluations", 5)
+            chk.count("cases_call_cache", 5)
+        if res["bad"] is not None:
+            bad.append(res["bad"])
+    return bad
+
+
+def search_failing(chk, rng, sup, seeds, seen):
+    """wider sweep for a failing input of the PROPERTY (hang / re-parse / re-evaluation), used when the model
+    disagrees with the implementation or a proof obligation broke.  Neighbourhood of the disagreeing texts
+    first, then every string of 3 alphabet tokens."""
+    def candidates():
+        for text in seeds[:25]:
+            toks = tokenize(text)
+            for i in range(len(toks) + 1):
+                yield "".join(toks[:i])
+                yield "".join(toks[i:])
+            for i in range(len(toks)):
+                yield "".join(toks[:i] + toks[i + 1:])
+            for i in range(min(len(toks) + 1, 40)):
+                for a in ALPHABET:
+                    yield "".join(toks[:i] + [a] + toks[i:])
+        for w in WITNESS_TEXTS:
+            for a in ALPHABET:
+                yield w + a
+                yield a + w
+        if chk.tier == "quick":
+            for tup in itertools.product(ALPHABET, repeat=3):
+                yield "".join(tup)
+    jobs = []
+    limit = 60000 if chk.tier == "quick" else 400000
+    for text in candidates():
+        if text in seen:
+            continue
+        seen.add(text)
+        jobs.append(["case", "search", text, False])
+        if len(jobs) >= limit:
+            break
+    sup.failures = 0
+    sup.stop_after_failures = 1
+    results = sup.run(jobs, is_failure=lambda r: bool(r.get("bad")))
+    for job, res in zip(jobs, results):
+        if res is None:
+            continue
+        chk.count("search_evaluations")
+        if res.get("killed"):
+            return killed_failure(job, res)
+        if res["bad"] is not None:
+            return res["bad"]
     return None
 
 
@@ -1063,74 +1412,11 @@ def check_numbers(chk, texts=None):
             p.wait()
 
 
-def check_lexer(chk, impl):
-    """kg_read(t, 0, read_neg, ignore_newline) alone, all four flag combinations, every string of <= 2 tokens"""
-    from klongpy.parser import kg_read
-    texts = ["".join(tup) for n in (1, 2) for tup in itertools.product(ALPHABET, repeat=n)]
-    texts = list(dict.fromkeys(texts))
-    reqs, meta = [], []
-    for t in texts:
-        for rn in (0, 1):
-            for ign in (0, 1):
-                reqs.append("(lex %d %d 0 (%s))" % (rn, ign, " ".join(str(ord(c)) for c in t)))
-                meta.append((t, rn, ign))
-    outs = chk.run_model(reqs)
-    bad = []
-    for (t, rn, ign), m in zip(meta, outs):
-        chk.count("evaluations")
-        chk.count("cases_lexer")
-        r, n = impl.budgeted(lambda: kg_read(t, 0, read_neg=bool(rn), ignore_newline=bool(ign), module=None), BUDGET(len(t)))
-        if r[0] == "hang":
-            bad.append({"kind": "hang", "text": t, "where": "kg_read", "read_neg": rn, "ignore_newline": ign})
-            continue
-        c = ("ok", [int(r[1][0]), impl.dump(r[1][1], True)]) if r[0] == "ok" else r
-        mm = ("ok", [m[1], impl.mcanon(m[2], True)]) if m[0] == "ok" else (("err", m[1]) if m[0] == "err" else ("oof",))
-        if c != mm:
-            bad.append({"kind": "lexer-model-differs", "text": t, "read_neg": rn, "ignore_newline": ign,
-                        "impl": repr(c)[:300], "model": repr(mm)[:300]})
-    return bad
-
-
-def search_failing(chk, rng, impl, seeds, seen):
-    """wider sweep for a failing input of the PROPERTY (hang / re-parse / re-evaluation), used when the model
-    disagrees with the implementation or a proof obligation broke.  Neighbourhood of the disagreeing texts
-    first, then every string of 3 alphabet tokens."""
-    orc = Oracle(impl)
-
-    def candidates():
-        for text in seeds[:25]:
-            toks = tokenize(text)
-            for i in range(len(toks) + 1):
-                yield "".join(toks[:i])
-                yield "".join(toks[i:])
-            for i in range(len(toks)):
-                yield "".join(toks[:i] + toks[i + 1:])
-            for i in range(min(len(toks) + 1, 40)):
-                for a in ALPHABET:
-                    yield "".join(toks[:i] + [a] + toks[i:])
-        for w in WITNESS_TEXTS:
-            for a in ALPHABET:
-                yield w + a
-                yield a + w
-        if chk.tier == "quick":
-            for tup in itertools.product(ALPHABET, repeat=3):
-                yield "".join(tup)
-    n = 0
-    for text in candidates():
-        if text in seen:
-            continue
-        seen.add(text)
-        n += 1
-        chk.count("search_evaluations")
-        bad, _, _ = orc.check("search", text, False)
-        if bad is not None:
-            return bad
-        if n >= (60000 if chk.tier == "quick" else 400000):
-            break
-    return None
-
-
+CACHE_TEXTS = ["a::7;a", "b::{x+1};b(2)", "a", ".module(:zz);a", "q::3", ":a", "[:a :b]", ":a,:b", "{:q}()", "0c:,:s",
+               "[1 :{[1 2]}],1", "[:{[1 2]}]", "[1 2 3],4", "[[1] :{[1 2] [3 4]}],[2]", "q::[1 2];q,3", "[1 [2 :{[3 4]}]],5"]
 MODULES = ["m", "geo2"]
+NAME_RE = re.compile(r"[A-Za-z][A-Za-z0-9]*")
+REBIND_KINDS = ("line", "witness", "exh1", "exh2", "exh3r", "colonadv")
 COLON_OPS = ["::", ":=", ":^", ":%", ":+", ":$", ":-", ":@", ":_", ":#", ":>", ":<", ":~", ":*"]
 ADVERB_TOKENS = ["'", ":\\", ":'", ":/", "/", ":~", ":*", "\\", "\\~", "\\*", "@'"]
 COLON_ADVERB_TEXTS = ["7%s%s2" % (o, a) for o in COLON_OPS for a in ADVERB_TOKENS] + \
@@ -1157,21 +1443,17 @@ def run(tier, replay=None):
         proof["ok"] = False
         proof["error"] = "forbidden declarations: %r" % hits
         proof["broken"] = hits[0]
-    impl = Impl()
+    sup = Supervisor(chk, 240.0 if tier == "quick" else 1500.0)
     try:
         # replay of the (repaired) finding R6 and of the Coq witnesses on the implementation
         known = chk.match_known("C12-comment-empty-marker")
         numbad = check_numbers(chk)
         cases = itertools.chain((("witness", w, False) for w in WITNESS_TEXTS), gen_cases(chk, rng))
-        prop_bad, corr_bad, seen = check_all(chk, rng, impl, cases)
+        prop_bad, corr_bad, seen, pool_err, pool_ok = sweep(chk, rng, sup, cases)
         if numbad is not None:
             prop_bad.insert(0, numbad)
-        for b in check_lexer(chk, impl):
-            (prop_bad if b["kind"] == "hang" else corr_bad).append(b)
         if len(prop_bad) < 5:
-            for b in (check_histories(chk, rng, impl), check_call_cache(chk, rng, impl)):
-                if b is not None:
-                    prop_bad.append(b)
+            prop_bad += second_sweep(chk, rng, sup, pool_err, pool_ok)
         reported = []
         for bp in prop_bad:
             if bp["kind"] == "hang" and known and '.comment("")' in bp["text"].replace(" ", ""):
@@ -1181,7 +1463,8 @@ def run(tier, replay=None):
         for bp in reported[:5]:
             chk.violation("parser property fails on the implementation (%s): %r" % (bp["kind"], bp["text"][:80]), bp)
         if not chk.violations and (corr_bad or not proof["ok"]):
-            found = search_failing(chk, rng, impl, [c["text"] for c in corr_bad], seen)
+            sup.deadline += 120.0
+            found = search_failing(chk, rng, sup, [c["text"] for c in corr_bad], seen)
             why = ("correspondence with the Coq model broke on %d of %d texts (first: %r)" % (
                 len(corr_bad), chk.counters.get("evaluations", 0), corr_bad[0]["text"][:60])) if corr_bad else \
                 ("proof obligation no longer checks: %s" % proof["broken"])
@@ -1195,8 +1478,7 @@ def run(tier, replay=None):
                 chk.violation(why, {"broken_obligation": proof["broken"], "coq_error": proof["error"],
                                     "generated": chk.generated_text}, no_input=True)
     finally:
-        impl.close()
-    chk.counters["instrumented_code_objects"] = impl.instrumented
+        sup.close()
     return chk.finish(
         rule="every string of <= %d tokens over a %d-token alphabet (exhaustive; quick adds all 3-token strings over 27 class representatives), seeded random strings of 3-8 tokens, every ASCII line of "
              "tests/kgtests/**/*.kg and klongpy/lib/*.kg (sample of the two generated files) unedited and with seeded single and double "
@@ -1297,3 +1579,8 @@ def regen_cost_model():
     print(wrap(tr(grab("Definition kg_read_body", "(* tying the knot: kg_read (S f)"))))
     print(wrap(tr(grab("(* KlongInterpreter.prog: the while loop *)", "Section Knot."))))
     print("(* then: in apply_adverbs_body_c wrap the part after `let arr := ...` in `tick (sc s s1) ( ... )` *)")
+
+
+if __name__ == "__main__":
+    if len(sys.argv) >= 4 and sys.argv[1] == "worker":
+        sys.exit(worker_main(sys.argv[2], int(sys.argv[3])))
